@@ -18,6 +18,9 @@ CHECKS = {
     "C05": dict(level="other", technique="deductive frame conditions decided by a flow-sensitive inter-procedural ownership typing over the real AST (no write through a cache-reachable reference, no identity comparison across caches); bounded history runs of every rule and format_code",
                 text="Every write site of the package is proved to have a receiver created in the function (or passed in fresh by every caller), and identity-based tests never mix objects of different caches - for all inputs and histories; the meta-argument from these frame conditions to history independence is stated, and the end-to-end claim is bounded (double runs, cache eviction, fresh process, shuffled histories on the corpus).",
                 note="trusted: the ownership rules (stated, not mechanised), footprint models of copy/ast helpers/containers; cached functions assumed pure except cwd / import tracing", ref="5/C05"),
+    "C06": dict(level="other", technique="deductive contract (pyvc, sorted() model) that the final sort of _schedule_rewrites orders by the total content key, conflict-loop contract (sorted transaction order), table/dataflow/frame obligations on format_files and format_file from the real AST (z3); bounded fresh-process runs under several PYTHONHASHSEED values and format_files under worker counts x shuffled file lists",
+                text="Application order of scheduled rewrites is proved to be a function of content only; dispatch, result pairing, per-file arguments and the worker's file footprint in format_files are proved order- and schedule-independent; that no rule's yield order leaks set-iteration order into the output is bounded (hash seeds x corpus and targeted inputs, every public rule; worker counts 1..16 x shuffles on generated trees).",
+                note="trusted: z3, pyvc executor, Pool.starmap ordering (documented), tie meta-argument; set-iteration order inside rules bounded only", ref="5/C06"),
     "C07": dict(level="other", technique="deductive reaching-definition / table obligations on the safe-mode preserve set and its flow (real AST of format_code, _multi_run_fixes), guarded-effect obligations (pyvc, lenient) on the deleting and renaming rules, has_side_effect branches; bounded surface comparison of format_code(safe=True)",
                 text="What the safe set contains, that it alone reaches every rule with a preserve argument, and that delete_unused_functions_and_classes / align_variable_names_with_convention delete or rename only unpreserved names are proved for all modules and preserve sets; the other deleting/renaming rules and the whole pipeline are bounded (surface of corpus and generated modules before/after).",
                 note="trusted: z3, pyvc executor (lenient), AST extractors; names made of underscores exempt by the tool's convention; unguarded rules bounded only", ref="5/C07"),
